@@ -151,6 +151,21 @@ def check_property(prop, tier, seed):
                                'obligation': f['name'], 'line': f['line'], 'backend': f.get('backend'), 'counter_model_entry': f.get('entry'),
                                'special': f.get('special'), 'solver_output': f.get('solver_output', '')[:2000], 'native_replay': rep,
                                'confirmed': bool(rep and rep.get('confirmed'))})
+    # ------------------------------------------------------------------ thorough tier: engine self-test on the functions of this property
+    selftest = []
+    if tier == 'thorough' and jobs:
+        from concurrent.futures import ProcessPoolExecutor
+        mods = sorted({m for m, _ in jobs}); keys = {k for _, k in jobs}
+        code = ("import sys, json; sys.path.insert(0, %r); from tools.selftest import run; "
+                "print('@@' + json.dumps(run([sys.argv[1]], set(sys.argv[2:]))))" % HERE)
+        procs = [subprocess.Popen(['python3-vt', '-c', code, m] + sorted(keys), stdout=subprocess.PIPE, stderr=subprocess.STDOUT, text=True) for m in mods]
+        for p_ in procs:
+            out_, _ = p_.communicate()
+            for line in out_.split('\n'):
+                if line.startswith('@@'): selftest += json.loads(line[2:])
+        for r_ in selftest:
+            if r_['ok'] is False:
+                inconsistent.append(f"engine self-test: the {r_['kind']} edit of {r_['target']} gave {r_.get('status_after_edit')} (a property-breaking edit must not stay proved, a benign one must)")
     # ------------------------------------------------------------------ Lean bridge
     lres = run_lean(spec.get('lean', []))
     for l in lres:
@@ -219,6 +234,7 @@ def check_property(prop, tier, seed):
             'bounded_truncated_by_time': bool(b and b['truncated']), 'bounded_cases_skipped_on_per_case_budget': len(b['timeouts']) if b else 0,
             'samples': ([{'obligation': s} for r in pres for s in r['sample'][:1]][:4]) + ([{'bounded_case': c} for c in (b['samples'] if b else [])][:3]),
             'known_findings_matched': sorted(known),
+            'engine_self_test': selftest,
             'undecided': undecided, 'solver_wall_s': round(sum(r['secs'] for r in pres), 1),
         },
         'assumptions': spec.get('assumptions', []) + COMMON_ASSUMPTIONS['assumptions'],
